@@ -1467,3 +1467,13 @@ mod tests {
         relpath_more_tricky_parents: ("/workspace/cmd/server/../../client/dist/../install", "/workspace", "client/install"),
     );
 }
+
+#[cfg(feature = "verif")]
+pub mod verif_hooks {
+    use std::io;
+    use std::path::{Path, PathBuf};
+
+    pub fn realdirpath(t: &Path) -> io::Result<PathBuf> {
+        super::realdirpath(t).map(|p| p.into_owned())
+    }
+}
